@@ -4,6 +4,7 @@
    This file contains statements only; proofs are in Interp/*Proofs.v. *)
 Require Import List ZArith QArith Qcanon.
 Require Import LV.Base.QcI LV.Interp.QOrd LV.Interp.RfiModel LV.Interp.SplineModel LV.Gen.RangeGen.
+Require LV.Interp.SigmaSplineProofs.
 Require Import LV.Interp.RfiProofs LV.Interp.SplineProofs LV.Interp.RangeProofs LV.Interp.RfiRational
   LV.Interp.C10Lemmas LV.Interp.RfiWindow LV.Interp.RfiRationalN LV.Interp.RfiRationalEx.
 Import ListNotations.
@@ -163,10 +164,10 @@ Proof. exact (conj rfi_rational4_instance rfi_rational5_instance). Qed.
 Print Assumptions rfi_rational_orders_4_5_instances_only.
 
 (* 5. spline: n >= 1 segments (n + 1 points, two-point vectors included), any coefficients *)
-Theorem spline_at_knot : forall xs ys n, 1 <= n ->
+Theorem spline_at_knot : forall xs ys n, 1 <= n -> zlen xs = n + 1 -> zlen ys = n + 1 ->
   (forall i, 0 <= i < n -> (gq xs i < gq xs (i + 1))%Qc) ->
   forall cs k, 0 <= k <= n -> spline_eval xs ys n cs (gq xs k) = Some (gq ys k).
-Proof. exact spline_at_knot_l. Qed.
+Proof. exact LV.Interp.SigmaSplineProofs.spline_at_knot_len_l. Qed.
 Print Assumptions spline_at_knot.
 
 (*    data on a line are reproduced at every x (between the knots and in the extrapolation) *)
@@ -208,6 +209,19 @@ Theorem range_m_error_accepts_cover : forall nl nh hl hh,
   covers nl nh hl hh -> range_m_error_reject nl nh hl hh = false.
 Proof. exact range_m_error_accepts_cover_l. Qed.
 Print Assumptions range_m_error_accepts_cover.
+(*    the test applies to calls with two or more points (regenerated guard); a single value is never refused
+      for its frequency *)
+Theorem range_m_error_single_point : forall nl nh hl hh, range_m_error_reject_n 1 nl nh hl hh = false.
+Proof. exact range_m_error_single_point_l. Qed.
+Print Assumptions range_m_error_single_point.
+Theorem range_m_error_n_rejects_5pct : forall n nl nh hl hh, 2 <= n ->
+  miss_low nl hl \/ miss_high nh hh -> range_m_error_reject_n n nl nh hl hh = true.
+Proof. exact range_m_error_n_rejects_5pct_l. Qed.
+Print Assumptions range_m_error_n_rejects_5pct.
+Theorem range_m_error_n_accepts_cover : forall n nl nh hl hh,
+  covers nl nh hl hh -> range_m_error_reject_n n nl nh hl hh = false.
+Proof. exact range_m_error_n_accepts_cover_l. Qed.
+Print Assumptions range_m_error_n_accepts_cover.
 
 Theorem range_get_value_rejects_5pct : forall f hl hh,
   miss_low f hl \/ miss_high f hh -> range_get_value_reject f f hl hh = true.
@@ -217,6 +231,10 @@ Theorem range_get_value_accepts_cover : forall f hl hh,
   covers f f hl hh -> range_get_value_reject f f hl hh = false.
 Proof. exact range_get_value_accepts_cover_l. Qed.
 Print Assumptions range_get_value_accepts_cover.
+(*    a NaN frequency (None; the decision functions are stated on Q) is refused before the comparisons *)
+Theorem range_get_value_nan_refused : forall hl hh, range_get_value_reject_nan None hl hh = true.
+Proof. exact range_get_value_nan_refused_l. Qed.
+Print Assumptions range_get_value_nan_refused.
 
 Theorem range_apply_rejects_5pct : forall nl nh hl hh,
   miss_low nl hl \/ miss_high nh hh -> range_apply_reject nl nh hl hh = true.
@@ -394,21 +412,23 @@ Print Assumptions apply_terms_at_knot.
 
 (*    terms that are rational functions of frequency of the proved orders are reproduced at every
       request frequency where the recurrence of each term completes (decidable side conditions) *)
-Theorem apply_low_order_exact2 : forall eps cut xp n max_m, zlen xp = n -> 1 <= n -> 1 <= max_m ->
+(*    PARTIAL: orders 2 and 3 only, i.e. two- and three-point calibrations (or VNACAL_MAX_M <= 3); for the common
+      case of four or more calibration points (orders 4, 5) nothing is proved between the knots *)
+Theorem apply_low_order_exact2_partial : forall eps cut xp n max_m, zlen xp = n -> 1 <= n -> 1 <= max_m ->
   knots_ok eps xp n -> forall cs req seg, apply_order n max_m = 2 ->
   (forall x, In x req -> forallb (term2_ok eps cut xp n max_m x) cs = true) ->
   exists seg', apply_loop eps cut xp n max_m (map (term2 xp) cs) req seg =
                Some (map (fun x => map (fun kp => rat2 (fst kp) (snd kp) x) cs) req, seg').
 Proof. exact apply_low_order_exact2_l. Qed.
-Print Assumptions apply_low_order_exact2.
+Print Assumptions apply_low_order_exact2_partial.
 
-Theorem apply_low_order_exact3 : forall eps cut xp n max_m, zlen xp = n -> 1 <= n -> 1 <= max_m ->
+Theorem apply_low_order_exact3_partial : forall eps cut xp n max_m, zlen xp = n -> 1 <= n -> 1 <= max_m ->
   knots_ok eps xp n -> forall cs req seg, apply_order n max_m = 3 ->
   (forall x, In x req -> forallb (term3_ok eps cut xp n max_m x) cs = true) ->
   exists seg', apply_loop eps cut xp n max_m (map (term3 xp) cs) req seg =
                Some (map (fun x => map (fun abc => rat3 (fst (fst abc)) (snd (fst abc)) (snd abc) x) cs) req, seg').
 Proof. exact apply_low_order_exact3_l. Qed.
-Print Assumptions apply_low_order_exact3.
+Print Assumptions apply_low_order_exact3_partial.
 
 (*    as coded at the edges: a zero-length request makes no call; a one-point calibration returns its
       stored terms at every frequency and never moves the segment *)
